@@ -197,6 +197,7 @@ _STATE = {"linted_in_process": False}
 class C21(Check):
     id = "C21"
     level = "exploration"
+    shrink_budget = 24  # one re-evaluation of an independence case is several lints
     rule = (
         "SELECT: pinned = every single reference of the bundled rule set (each code, name, group, alias) once as "
         "`rules` and once as `exclude_rules`, plus hand-written combinations; generated = lists of 1-4 references "
@@ -261,10 +262,10 @@ class C21(Check):
         return st.one_of(select_case(), select_case(), select_case(), synthetic_case(), synthetic_case(), indep_case())
 
     def examples(self, tier):
-        return 120 if tier == "quick" else 5000
+        return 96 if tier == "quick" else 5000
 
     def budget_s(self, tier):
-        return 300.0 if tier == "quick" else 1700.0
+        return 600.0 if tier == "quick" else 1700.0
 
     def run_case(self, case):
         k = case.get("kind")
